@@ -98,11 +98,16 @@ def run(R, job):
     # names of head_content: a function of the rendered content only; injective on distinct contents
     core = R.core
     payloads = [core.Tag("title", "a"), core.Tag("title", "b"), "a", "a ", core.HTML("<a>"), "<a>", core.TagList("a", "b"), "ab", core.Tag("title", "a", _add_ws=False), core.Tag("meta", name="x"),
-                core.Tag("meta", name="y"), core.TagList(core.Tag("title", "a"), core.Tag("meta"))]
+                core.Tag("meta", name="y"), core.TagList(core.Tag("title", "a"), core.Tag("meta")),
+                # contents that differ only in characters an encoder might treat alike (unpaired surrogates, replacement characters)
+                core.Tag("meta", content="?"), core.Tag("meta", content="\udc80"), core.Tag("meta", content="\ud800"), core.Tag("meta", content="\ufffd"), "\udc80", "?", "\ufffd"]
     by_content = {}
     for pl in payloads:
         checked += 1
-        d1, d2 = core.head_content(pl), core.head_content(pl)
+        try:
+            d1, d2 = core.head_content(pl), core.head_content(pl)
+        except UnicodeEncodeError:
+            continue          # refusing a content that cannot be encoded is not a merge
         content = core.TagList(pl).get_html_string()
         if d1.name != d2.name:
             fails.append({"input": "head_content(" + repr(content) + ") twice", "observed": [d1.name, d2.name], "expected": "equal names for equal content"})
